@@ -50,6 +50,16 @@ def glift(x):
 
 
 @specfn
+def stats_recorded(a, b):
+    """every comparison is recorded in the class statistics (what the arithmetic report and C13's "clean statistics"
+    clause read): the largest difference treated as equal, the smallest treated as different"""
+    gd = abs(a - b)
+    e = Guarded._Guarded__geps
+    return and_(Guarded.maxDiff == ite(and_(e > gd, gd > old(Guarded.maxDiff)), gd, old(Guarded.maxDiff)),
+                Guarded.minDiff == ite(and_(e <= gd, gd < old(Guarded.minDiff)), gd, old(Guarded.minDiff)))
+
+
+@specfn
 def geq(a, b):
     "the tolerance relation: equal iff they differ by less than half a unit of the declared precision"
     return 2 * abs(a - b) < Guarded._Guarded__scaleg
@@ -188,6 +198,7 @@ def guarded_cmp(self: 'Guarded', other: 'Guarded') -> 'int':
     ensures((result == 0) == geq(a, b))
     ensures(implies(result != 0, result == ite(a > b, 1, -1)))
     ensures(or_(result == 0, result == 1, result == -1))
+    ensures(stats_recorded(a, b), name='the comparison is recorded in the statistics')
     modifies(Guarded, 'maxDiff', 'minDiff')
 
 
@@ -195,6 +206,7 @@ def guarded_cmp(self: 'Guarded', other: 'Guarded') -> 'int':
 def guarded_eq(self: 'Guarded', other: 'Guarded') -> 'bool':
     requires(guarded_inv())
     ensures(result == geq(self._value, other._value))
+    ensures(stats_recorded(self._value, other._value), name='the comparison is recorded in the statistics')
     modifies(Guarded, 'maxDiff', 'minDiff')
 
 
@@ -202,6 +214,7 @@ def guarded_eq(self: 'Guarded', other: 'Guarded') -> 'bool':
 def guarded_ne(self: 'Guarded', other: 'Guarded') -> 'bool':
     requires(guarded_inv())
     ensures(result == not_(geq(self._value, other._value)))
+    ensures(stats_recorded(self._value, other._value), name='the comparison is recorded in the statistics')
     modifies(Guarded, 'maxDiff', 'minDiff')
 
 
@@ -209,6 +222,7 @@ def guarded_ne(self: 'Guarded', other: 'Guarded') -> 'bool':
 def guarded_lt(self: 'Guarded', other: 'Guarded') -> 'bool':
     requires(guarded_inv())
     ensures(result == and_(not_(geq(self._value, other._value)), self._value < other._value))
+    ensures(stats_recorded(self._value, other._value), name='the comparison is recorded in the statistics')
     modifies(Guarded, 'maxDiff', 'minDiff')
 
 
@@ -216,6 +230,7 @@ def guarded_lt(self: 'Guarded', other: 'Guarded') -> 'bool':
 def guarded_le(self: 'Guarded', other: 'Guarded') -> 'bool':
     requires(guarded_inv())
     ensures(result == or_(geq(self._value, other._value), self._value < other._value))
+    ensures(stats_recorded(self._value, other._value), name='the comparison is recorded in the statistics')
     modifies(Guarded, 'maxDiff', 'minDiff')
 
 
@@ -223,6 +238,7 @@ def guarded_le(self: 'Guarded', other: 'Guarded') -> 'bool':
 def guarded_gt(self: 'Guarded', other: 'Guarded') -> 'bool':
     requires(guarded_inv())
     ensures(result == and_(not_(geq(self._value, other._value)), self._value > other._value))
+    ensures(stats_recorded(self._value, other._value), name='the comparison is recorded in the statistics')
     modifies(Guarded, 'maxDiff', 'minDiff')
 
 
@@ -230,6 +246,7 @@ def guarded_gt(self: 'Guarded', other: 'Guarded') -> 'bool':
 def guarded_ge(self: 'Guarded', other: 'Guarded') -> 'bool':
     requires(guarded_inv())
     ensures(result == or_(geq(self._value, other._value), self._value > other._value))
+    ensures(stats_recorded(self._value, other._value), name='the comparison is recorded in the statistics')
     modifies(Guarded, 'maxDiff', 'minDiff')
 
 
